@@ -55,7 +55,7 @@ def ob_instantiate(which, n):
             ctx.require_all(st, cl, W.mv)
             if n >= 2:
                 ctx.witness('%s instantiate with a repeated address' % which, st, [W.mv['init_addr0'] == W.mv['init_addr1']], W.mv)
-            ctx.witness('%s instantiate Ok' % which, st, True, W.mv)
+            ctx.witness('%s instantiate Ok' % which, st, True, W.mv, expect='ok')
         if n == 0:
             ctx.need_witness('instantiate Ok path', nok > 0)
         ctx.ob.bounds = {'initial balances': n}
@@ -122,7 +122,7 @@ def ob_execute(which, variant):
                 has = any(m['kind'] == 'wasm_execute' and isinstance(m['msg'], Agg) and m['msg'].vname == 'CheckSlashing' and m['contract'].id == W.hub.id for m in msgs)
                 cl.append((has, 'burn makes the hub refresh its exchange rates (CheckSlashing) in the same transaction', '%s:%s:check_slashing' % (which, variant)))
             ctx.require_all(st, cl, W.mv)
-            ctx.witness('%s %s Ok' % (which, variant), st, True, W.mv)
+            ctx.witness('%s %s Ok' % (which, variant), st, True, W.mv, expect='ok')
         ctx.need_witness('Ok path of %s %s' % (which, variant), nok > 0)
         ctx.expect_witness('%s %s reachable (solver)' % (which, variant), '%s %s Ok' % (which, variant))
     return ob
